@@ -150,8 +150,21 @@ func (m *machine) write(t *rapid.T, pi int, client regs.Ref, si int, f *gen.Func
 	}
 	success := (results == 1 && errNo == 0) || (!ack && results == 0)
 	if success {
-		want := refmodel.Multiset(refmodel.Fold(f, state, u))
-		got := refmodel.Multiset(refmodel.ItemsOf(f, srv.DataCopy(f.Fn)))
+		// the changeability flag itself is never altered by a remote write (C04's subject): a write
+		// that names it, e.g. in delete elements, is compared without that field
+		noFlag := func(items []reflect.Value) []reflect.Value {
+			if f.WriteCheck == "" {
+				return items
+			}
+			out := refmodel.CloneItems(items)
+			for _, it := range out {
+				fv := it.FieldByName(f.WriteCheck)
+				fv.Set(reflect.Zero(fv.Type()))
+			}
+			return out
+		}
+		want := refmodel.Multiset(noFlag(refmodel.Fold(f, state, u)))
+		got := refmodel.Multiset(noFlag(refmodel.ItemsOf(f, srv.DataCopy(f.Fn))))
 		if !reflect.DeepEqual(want, got) {
 			world.Fail(t, "C03/authorised-write-effect/"+shapeSig, "an authorised, accepted write did not produce the fold of the write\n want: %v\n got:  %v%s", want, got, detail())
 		}
